@@ -100,6 +100,19 @@ def decide_zero(x, ex, ladder=LADDER_QUICK, extra_hyps=(), use_pc_first=False, w
     return Verdict('unknown', None, v2.time, bare_env, stage='with-path-condition')
 
 
+def decide_within(x, ex, box, tol, ladder=LADDER_QUICK):
+    """Tolerance query (few symbolic variables only): |x| <= tol for all values in the box (list of z3 constraints)."""
+    x = tosym(x)
+    hyps = list(box)
+    if ex is not None:
+        hyps += ex.hyps_a() + ex.assume_list + ex.pc
+    t = z3.RealVal(Fr(tol))
+    q = [z3.Or(x.a > t, x.a < -t)] + hyps
+    v = run_members([('A-nlsat+tol', 'nlsat', q), ('A-default+tol', 'default', q)], ladder)
+    v.stage = 'tolerance %g on box' % tol
+    return v
+
+
 def decide_valid(f, ex, ladder=LADDER_QUICK, extra_hyps=(), kinds=('default', 'nlsat')):
     """Is formula ``f`` valid under assumptions + path condition + side conditions?"""
     if isinstance(f, bool):
